@@ -132,13 +132,14 @@ PROPS["C07"] = dict(
          "every word of length 1..3 over {a, blank, ', \", \\} in each style, alone and between two words. Oracle: argc, every "
          "argv[i] byte for byte, argv[argc]==nullptr. (b) rule-obeying abstract lines of rule-rich configurations whose uses are "
          "split over program-argument file / environment variable / argv in the documented evaluation order (file lines with "
-         "several words, comment and empty lines, three quoting styles; both file mechanisms hfReadProgArg and addArgumentFile; "
+         "several words, comment and empty lines, three quoting styles; both file mechanisms hfReadProgArg and addArgumentFile, the latter also nested (an argument file that names another one between its own lines); "
          "both environment mechanisms; program names with and without path). Oracle: destinations == same words on argv == model; "
          "plus a scalar given in file/env and again on argv is accepted and ends with the argv value. Non-trivial = (a) a word "
          "contains a blank, quote or backslash, (b) >= 1 use from a non-argv source and >= 1 from argv; distinct by case hash.",
     require_classes=dict(all=["style.backslash", "style.single", "style.double", "style.backslash_all", "mixed_segments",
                               "source.arg_file", "source.prog_arg_file", "source.env_default_name", "source.env_named",
-                              "source.file_comment_line", "source.override"]),
+                              "source.file_comment_line", "source.override", "source.nested_arg_file",
+                              "source.nested_arg_file_override"]),
     assumptions=DOMAIN_ASSUMPTIONS + [
         "'escaping' means the splitter's own documented rules (a backslash protects the next character everywhere, also inside quotes), not POSIX shell quoting",
         "empty words are out of domain (an empty quoted run produces no word; the property says non-empty words)",
